@@ -968,7 +968,67 @@ func genC01J(e *emitter, r *rng, thorough bool) {
 	}
 }
 
+// C09W: high-volume input for the wrap search (driver-only ops jac.wrap / jac.wrapdec / jac.wraponcurve):
+// random pairs of curve points in every representation class and both aliasing patterns.
+func genC09W(e *emitter, r *rng, thorough bool) {
+	nPts, nOps := 300, 20000
+	if thorough {
+		nPts, nOps = 3000, 1500000
+	}
+	curve := bec.S256()
+	pts := make([]jacAffPt, 0, nPts)
+	x, y := curve.ScalarBaseMult(r.bytes(32))
+	for len(pts) < nPts {
+		pts = append(pts, jacAffPt{x, y, "rnd"})
+		gx, gy := curve.ScalarBaseMult(r.bytes(4))
+		x, y = curve.Add(x, y, gx, gy)
+	}
+	one := big.NewInt(1)
+	distinct := "0,1,2,3,4,5,6,7,8"
+	acc := "0,1,2,3,4,5,0,1,2"
+	for i := 0; i < nOps; i++ {
+		p, q := pts[r.intn(len(pts))], pts[r.intn(len(pts))]
+		al := distinct
+		if r.coin(1, 2) {
+			al = acc
+		}
+		var P, Q [3]fv
+		switch i % 5 {
+		case 0, 1: // both z = 1 (Add, and the first steps of the loops)
+			P, Q = jacOf(p, one), jacOf(q, one)
+		case 2: // z2 = 1
+			P, Q = jacOf(p, randLambda(r)), jacOf(q, one)
+		case 3: // z1 = z2
+			l := randLambda(r)
+			P, Q = jacOf(p, l), jacOf(q, l)
+		default:
+			P, Q = jacOf(p, randLambda(r)), jacOf(q, randLambda(r))
+		}
+		if i%7 == 3 { // the negated y that ScalarMult passes (magnitude 2)
+			Q[1] = dress(r, Q[1], 2)
+		}
+		var z fv
+		e.emit("wrap.add", spjoin("jac.wrap add", al, fv3(P), fv3(Q), fvStr(z), fvStr(z), fvStr(z)))
+		if i%4 == 0 {
+			dal := "0,1,2,3,4,5"
+			if r.coin(1, 2) {
+				dal = "0,1,2,0,1,2"
+			}
+			e.emit("wrap.double", spjoin("jac.wrap double", dal, fv3(P), fvStr(z), fvStr(z), fvStr(z)))
+		}
+		// decompression of fresh random x (about half have a root; one of the two parities takes the negation branch)
+		rx := new(big.Int).SetBytes(r.bytes(32))
+		rx.Mod(rx, fldP)
+		e.emit("wrap.dec", "jac.wrapdec "+rx.Text(16)+" 0")
+		e.emit("wrap.dec", "jac.wrapdec "+rx.Text(16)+" 1")
+		if i%3 == 0 {
+			e.emit("wrap.oncurve", "jac.wraponcurve "+p.x.Text(16)+" "+p.y.Text(16))
+		}
+	}
+}
+
 func init() {
+	generators["C09W"] = genC09W
 	generators["C09"] = genC09
 	generators["C10"] = genC10
 	generators["C01J"] = genC01J
